@@ -25,14 +25,14 @@ def job(args):
     edits = patch_edits(open(patch).read())
     if not edits:
         return (name, prop, "skip", "no edits")
-    base = Repo("/repo")
+    base = Repo(os.environ.get("ACSA_REPO", "/repo"))
     try:
         ov = build_overlay(base, Variant(name, edits))
     except SyntaxError as exc:
         return (name, prop, "skip", f"does not compile {exc}")
     if ov is None:
         return (name, prop, "skip", "patch does not apply")
-    repo = Repo("/repo", overlay=ov)
+    repo = Repo(os.environ.get("ACSA_REPO", "/repo"), overlay=ov)
     res = run_rules(prop, repo)
     known = {(k.rule, k.construct) for k in load_known() if k.prop == prop}
     viol = [o for o in res.violations if (o.rule, o.construct) not in known]
